@@ -130,7 +130,7 @@ pub fn run(args: &[String]) -> i32 {
     let cur = format!("{}.cur.st", arg(args, "--out").unwrap());
     let mut next = 0usize;
     while next < runs {
-        let exe = std::env::current_exe().unwrap();
+        let exe = crate::util::self_exe();
         let mut child = std::process::Command::new(exe).args(["stfeat-child", "--seed", &seed.to_string(), "--from", &next.to_string(), "--to", &(next + 400).min(runs).to_string(), "--cur", &cur])
             .stdout(std::process::Stdio::piped()).spawn().unwrap();
         // a program that hangs beyond the execution deadline would block the batch: watch the clock
